@@ -601,7 +601,17 @@ class C16(PropertyCheck):
     id = "C16"
     lean_modules = ["QipVerif.Props.C16"]
     drivers = ["drv_sim"]
-    theorems = ["QipVerif.C16.C16_counterexample_phase_accumulates"]
+    theorems = [
+        "QipVerif.C16.args_unchanged",
+        "QipVerif.C16.fresh_equivalent",
+        "QipVerif.C16.repeat_equal",
+        "QipVerif.C16.no_alias",
+        "QipVerif.C16.fresh_equivalent_load",
+        "QipVerif.C16.query_pure",
+        "QipVerif.C16.C16_counterexample_cbits_alias",
+        "QipVerif.C16.C16_counterexample_phase_accumulates",
+        "QipVerif.C16.C16_counterexample_state_getter",
+    ]
     technique = ("Lean 4 proof over a heap/world model of the mutable attributes (CircuitSimulator, GateCompiler, "
                  "ModelProcessor; classical-bit lists as heap cells so that aliasing is representable) + history "
                  "correspondence with deep snapshots + independent purity/repeat/fresh-object oracle")
